@@ -11,7 +11,7 @@ from props.c09 import campaign_impl_only
 SPEC = {
     "lean_modules": ["Honeycomb.Props.C10"],
     "required_theorems": [
-        "C10_validated_load_wf",
+        "C10_validated_load_wf", "C10_validated_load", "C10_witnesses_rejected",
         "C10_fails_out_of_range", "C10_fails_not_inverse", "C10_fails_asymmetric_beta2",
         "C10_fails_null_column_ignored", "C10_fails_unused_linked_panics", "C10_fails_unused_repeated_panics",
         "C10_fails_unused_out_of_range_panics", "C10_fails_vertex_out_of_range_panics",
@@ -44,10 +44,12 @@ SPEC = {
             "valid layout; oracle: `err …` or (`ok`, WF2 of the snapshot evaluated in Python and by `wf`, snapshot equal to the "
             "map the text denotes).  distinct_nontrivial = distinct implementation transcripts.",
     "not_proved": [
-        "C10 as stated (load f = err ∨ (ok ∧ WF ∧ agrees)) is false of the current code: 9 proved negation witnesses (C10_fails_*)",
-        "`Agrees f m` (every β image, flag and vertex of the returned map equals the text) under validFile: only the β/WF part "
-        "is proved (C10_validated_load_wf); agreement of flags and vertex values with the text is checked by the oracle, not proved",
-        "absence of panic under validFile (load f ≠ panic) — see Props/C10.lean NOT PROVED block if listed there",
+        "C10 as stated (for every accepted layout: load f = err ∨ (ok m ∧ WF m ∧ agrees)) is FALSE of the current code: "
+        "9 proved negation witnesses C10_fails_* (classes D5a–D5g)",
+        "under validFile the agreement of the stored vertex VALUES with the text (last line wins on a repeated id) is not "
+        "proved; C10_validated_load_wf proves: no panic, no error, WF2, n_darts, every β image and every removal flag equal "
+        "to the text; vertex values are checked by the oracle on the implementation",
+        "tokenisation of raw text (characters -> token lines) is outside the model",
     ],
 }
 
@@ -315,7 +317,8 @@ MUTATIONS = {
 def make_case(cid, rng, lines, mut):
     ana = cg.analyse(lines)
     mask = rng.choice([0, 0, 7, 23])
-    cl = ["new 2 0 0", cg.loadtext_line(mask, lines), "snap"]
+    # `ser` is there for the correspondence only (serialize of an ill-formed map may panic: same on both sides)
+    cl = ["new 2 0 0", cg.loadtext_line(mask, lines), "snap", "ser"]
     if "beta-out-of-range" not in ana["defects"]:
         cl.append("wf")   # the two drivers print `wf` differently on out-of-range maps (second flag)
     sig = f"mut={mut};kind={ana['kind']};defects={','.join(ana['defects'])}"
@@ -382,6 +385,28 @@ def random_texts(count, rng):
     return cases
 
 
+SOUP = ["[META]", "[meta]", "[BETAS]", "[betas]", "[UNUSED]", "[VERTICES]", "[Vertices]", "[[META]]", "[META", "META]",
+        "[", "]", "[]", "[x]", "[BETAS]x", "x[BETAS]", "#", "#x", "x#y", "0#", "#[META]", "[META]#", "[UNUSED]#c",
+        "0", "0", "0", "1", "2", "3", "0.8.1", "+1", "01", "x", "1/2", "-3/4", "2.5", "[0]", "0]"]
+
+
+def layout_soup(count, rng):
+    """random token soup around the section syntax: headers in odd spellings, brackets, comments glued to tokens,
+    data before the first header, repeated / missing sections (three-way check of the section parser)"""
+    cases = []
+    for k in range(count):
+        lines = []
+        if rng.random() < 0.7:
+            lines += [[rng.choice(["[META]", "[meta]", "[[META]]"])], [cg.VERSION, "2", str(rng.randint(0, 2))]]
+        if rng.random() < 0.7:
+            n = rng.randint(0, 2)
+            lines += [[rng.choice(["[BETAS]", "[betas]"])]] + [["0"] * (n + 1) for _ in range(3)]
+        for _ in range(rng.randint(0, 5)):
+            lines.insert(rng.randint(0, len(lines)), [rng.choice(SOUP) for _ in range(rng.randint(0, 4))])
+        cases.append(make_case(f"soup{k}", rng, lines, "soup"))
+    return cases
+
+
 def special_coord_cases(count, rng):
     """implementation only: coordinate tokens the model cannot represent"""
     toks = ["inf", "-inf", "+inf", "infinity", "-Infinity", "INF", "nan", "NaN", "-nan", "1e999", "-1e999", "1e-999",
@@ -403,9 +428,16 @@ def special_coord_cases(count, rng):
 # oracle
 # ---------------------------------------------------------------------------------------------
 
+REPLIES = {}
+
+
 def oracle_c10(case, li):
     if any(ln.startswith("<missing") for ln in li):
         return "[driver] " + li[0]
+    mut = case.meta["sig"].split(";")[0][4:].split("+")[0]
+    rep_key = " ".join(li[1].split(" ")[:2]) if len(li) > 1 else "?"
+    REPLIES.setdefault(mut, {})
+    REPLIES[mut][rep_key] = REPLIES[mut].get(rep_key, 0) + 1
     if case.oracle == "special":
         rep, wf = li[1], li[2]
         if rep == "panic":
@@ -439,8 +471,8 @@ def oracle_c10(case, li):
     f = cg.snap_wf_failure(s)
     if f:
         return f"[{f}] the loader returns an ill-formed map: {li[2][:300]}"
-    if len(li) > 3 and li[3] != "wf true true true":
-        return f"[nonwf:driver] {li[3]}"
+    if len(li) > 4 and li[4] != "wf true true true":
+        return f"[nonwf:driver] {li[4]}"
     ex = ana["expect"]
     if s["n"] != ex["n"]:
         return f"[disagree:n] n_darts {s['n']} for a text announcing {ex['n']}"
@@ -478,15 +510,17 @@ def run(tier, seed):
     rng = random.Random(seed)
     parts = []
     if tier == "quick":
-        parts.append(("valid controls", campaign(valid_controls(300, rng))))
-        parts.append(("single and double mutations", campaign(mutated(2600, rng))))
-        parts.append(("random texts with valid layout", campaign(random_texts(1500, rng))))
+        parts.append(("valid controls", campaign(valid_controls(500, rng))))
+        parts.append(("single and double mutations", campaign(mutated(7800, rng))))
+        parts.append(("random texts with valid layout", campaign(random_texts(4000, rng))))
+        parts.append(("section-syntax token soup", campaign(layout_soup(3000, rng))))
         parts.append(("special coordinate tokens (implementation only)",
-                      campaign_impl_only(special_coord_cases(300, rng), oracle_c10)))
+                      campaign_impl_only(special_coord_cases(600, rng), oracle_c10)))
     else:
         parts.append(("valid controls", campaign(valid_controls(3000, rng))))
         parts.append(("single and double mutations", campaign(mutated(39000, rng))))
         parts.append(("random texts with valid layout", campaign(random_texts(30000, rng))))
+        parts.append(("section-syntax token soup", campaign(layout_soup(30000, rng))))
         parts.append(("special coordinate tokens (implementation only)",
                       campaign_impl_only(special_coord_cases(3000, rng), oracle_c10)))
     res = hv.merge_results(parts)
@@ -498,6 +532,7 @@ def run(tier, seed):
             tag = m.group(1) if m else "?"
             tally[tag] = tally.get(tag, 0) + 1
     res.setdefault("notes", []).append({"observed_failure_classes": tally})
+    res["notes"].append({"implementation_replies_per_mutation_class": REPLIES})
     return res
 
 
